@@ -28,7 +28,7 @@ EXPLANATION = ('Static path/dominance/who-may-call rules over the CFG facts of t
                'Each is a necessary condition of memory safety / bounded work for every accepted font and text; absence of '
                'out-of-bounds access in float-derived collision indexing and the numeric work bound are NOT decided.')
 FLOORS = {'VMSTACK': 60, 'STACKMODEL': 30, 'PARAMSZ': 55, 'DIVGUARD': 1, 'NOSIGNEDOVF': 50, 'SLOTREF': 20,
-          'USERATTR': 2, 'GROWTH': 9, 'CONST': 7, 'RECURSION': 5, 'LOOPLIMIT': 4, 'CMAPBOUND': 4}
+          'USERATTR': 3, 'GROWTH': 9, 'CONST': 7, 'RECURSION': 5, 'LOOPLIMIT': 4, 'CMAPBOUND': 4}
 
 
 # ------------------------------------------------------------------------------------------ SLOTREF
@@ -141,8 +141,56 @@ def mapindex(run, fx):
                          {'facts': fs})
 
 
+def mapwindow(run, fx):
+    """a pointer into the slot map formed as begin() + <signed offset> (the window of a rule: context - preContext): the offset is
+    known to be >= 0 where the pointer is formed -- by a dominating test of that very difference, in any arrangement of its terms;
+    a test made after a conversion to unsigned says nothing about the sign -- and a dominating test relates it to size()"""
+    from . import linear
+    n_ = 0
+    for fn in fx.all_fns():
+        if not fn.file.endswith(('Pass.cpp', 'Silf.cpp', 'Segment.cpp', 'Slot.cpp')) or not fn.blocks:
+            continue
+        begins = {fn.render(c_, resolve=True) for c_ in calls_in(fn, 'graphite2::SlotMap::begin')}
+        if not begins:
+            continue
+        for _, e in fn.elements():
+            if e['k'] != 'BinaryOperator' or e['op'] not in ('+', '-') or '*' not in (e.get('t') or ''):
+                continue
+            if any(p_['k'] == 'BinaryOperator' and p_['op'] in ('+', '-') and '*' in (p_.get('t') or '') for p_ in (fn.nodes[i] for i in fn.parents().get(e['i'], []))):
+                continue            # not the outermost pointer sum
+            terms, c0 = linear.lin(fn, e)
+            base = [t for t in terms if t in begins]
+            if len(base) != 1 or terms[base[0]] != 1:
+                continue
+            off = (linear.Counter({t: c for t, c in terms.items() if t != base[0]}), c0)
+            if not off[0]:
+                continue
+            n_ += 1
+            inst = '%s window @%s' % (fn.q.split('::')[-1], e.get('ln'))
+            lows, ups = [], []
+            for cond, pol in dom.edge_guards(fn, fn.block_of[e['i']]):
+                for a, p in dom.atoms(fn, cond, pol):
+                    for t, c in linear.lower_bounds(fn, a, p):
+                        if t == off[0] and c <= off[1]:
+                            lows.append(fn.render(fn.strip(a)))
+                    txt = fn.render(fn.strip(a), resolve=True)
+                    if 'size()' in txt and all(x in txt for x in off[0]):
+                        ups.append(txt)
+            if lows and ups:
+                run.held('USERATTR', inst, fn.loc(e), 'offset %s: lower bound by `%s`, related to size() by `%s`' % (dict(off[0]), lows[0], ups[0][:80]))
+            else:
+                run.violated('USERATTR', inst, fn.loc(e), '%s forms a pointer into the slot map as begin() + (%s) %s: a rule whose pre-context reaches before the start '
+                             'of the map reads and runs constraint code on memory in front of it' %
+                             (fn.q, ' '.join('%+d*%s' % (c, t) for t, c in sorted(off[0].items())),
+                              'without a dominating test that this signed difference is >= 0 (a comparison made after converting to unsigned does not bound the sign)'
+                              if not lows else 'without relating it to the map size'))
+    if n_ == 0:
+        run.broken('USERATTR', 'slot-map window', 'no begin() + offset pointer into the slot map found (expected Pass::testConstraint)', '')
+
+
 def userattr(run, fx):
     mapindex(run, fx)
+    mapwindow(run, fx)
     sa = fx.one('graphite2::Slot::setAttr')
     stores = []
     for _, e in sa.elements():
